@@ -8,7 +8,7 @@ cd /verif || exit 2
 J=${1:-4}
 export GOFLAGS=-mod=mod GOPROXY=off GOSUMDB=off GOTOOLCHAIN=local GOWORK=off
 tmp=$(mktemp -d /tmp/verif-benign.XXXXXX)
-ls -d benign/*/ | sed 's|/$||' > $tmp/all
+ls -d /verif/benign/*/ | sed 's|/$||' > $tmp/all
 split -n l/$J $tmp/all $tmp/part.
 for f in $tmp/part.*; do
   wt=$tmp/wt.$(basename $f)
@@ -20,7 +20,7 @@ rc=0
 cat $tmp/part.*.log | sort > $tmp/log
 while read d; do
   want=$(python3 -c "import json;print(json.load(open('$d/meta.json')).get('check_result','quiet').split()[0])")
-  if grep -q "BENIGN /verif/$d/patch.diff QUIET\|BENIGN $d/patch.diff QUIET" $tmp/log; then got=quiet; else got=alarm; fi
+  if grep -q "BENIGN $d/patch.diff QUIET" $tmp/log; then got=quiet; else got=alarm; fi
   echo "BENIGNTEST $(basename $d): $got (recorded: $want)"
   if [ "$want" = quiet ] && [ "$got" != quiet ]; then rc=1; grep "$d/patch.diff" $tmp/log | cut -c1-300; fi
 done < $tmp/all
